@@ -1,3 +1,132 @@
-From ZV Require Import Lib.Base Model.Sched.
-Theorem C20_placeholder : True. Proof. exact I. Qed.
-Print Assumptions C20_placeholder.
+(** C20 — the search scheduler bounds concurrency and never leaks slots.
+    Model: Model/Sched.v (transition system following search/sched.go); proofs: Proofs/Sched.v.
+    All statements quantify over arbitrary capacities [ci cb], an arbitrary number of processes (ENew events)
+    and EVERY executable event list [es] (all interleavings of acquire, grant, cancel, time-slice expiry,
+    yield, failure and release). *)
+From ZV Require Import Lib.Base Model.Sched Proofs.Sched.
+
+(** At any time at most capI processes hold an interactive slot and at most capB a batch slot. *)
+Theorem C20_bounded_concurrency : forall (ci cb : nat) (es : list event) (s : state),
+  run (init ci cb) es = Some s -> holders SI s <= ci /\ holders SB s <= cb.
+Proof. exact bounded. Qed.
+Print Assumptions C20_bounded_concurrency.
+
+(** The semaphores' counters are exactly the number of processes whose `sem` variable points to them:
+    no slot is held by nobody (leak) and nobody runs on a slot the semaphore does not account for. *)
+Theorem C20_counter_equals_holders : forall (ci cb : nat) (es : list event) (s : state),
+  run (init ci cb) es = Some s -> curI s = holders SI s /\ curB s = holders SB s.
+Proof. exact counter_is_holders. Qed.
+Print Assumptions C20_counter_equals_holders.
+
+(** No schedule drives semaphore.Weighted.Release below zero ("semaphore: released more than held"). *)
+Theorem C20_never_over_released : forall (ci cb : nat) (es : list event) (s : state),
+  run (init ci cb) es = Some s -> panicked s = false.
+Proof. exact never_over_released. Qed.
+Print Assumptions C20_never_over_released.
+
+(** Every acquired slot is released exactly once: per process and semaphore, #grants = #releases + (1 if
+    currently held); at most one grant per semaphore; and a process that is not between API calls (waiting,
+    failed, or after Release — whether it finished, was cancelled while waiting, or moved to batch) has
+    released everything it was granted. *)
+Theorem C20_release_exactly_once : forall (ci cb : nat) (es : list event) (s : state) (p : nat) (q : proc),
+  run (init ci cb) es = Some s -> nth_error (procs s) p = Some q ->
+  p_acqI q = p_relI q + b2n (holds SI q) /\ p_acqB q = p_relB q + b2n (holds SB q) /\
+  p_acqI q <= 1 /\ p_acqB q <= 1 /\
+  (p_pc q <> PRun -> p_acqI q = p_relI q /\ p_acqB q = p_relB q).
+Proof. exact release_exactly_once. Qed.
+Print Assumptions C20_release_exactly_once.
+
+(** An acquisition (in Acquire or in Yield) fails only when its context is done — state form ... *)
+Theorem C20_errors_only_if_ctx_done : forall (ci cb : nat) (es : list event) (s : state) (p : nat) (q : proc),
+  run (init ci cb) es = Some s -> nth_error (procs s) p = Some q ->
+  (0 < p_errs q -> p_ctx q = true) /\ (p_pc q = PAcqErr -> p_ctx q = true).
+Proof. exact errors_only_if_ctx_done. Qed.
+Print Assumptions C20_errors_only_if_ctx_done.
+
+(** ... and history form: a failure event of p is always preceded by the cancellation of p's context. *)
+Theorem C20_fail_only_after_cancel : forall (ci cb : nat) (pre : list event) (p : nat) (s : state),
+  run (init ci cb) (pre ++ [EFail p]) = Some s -> In (ECancel p) pre.
+Proof. exact fail_only_after_cancel. Qed.
+Print Assumptions C20_fail_only_after_cancel.
+
+(** No leak: when every process is outside the scheduler (never started, Acquire failed, or released), both
+    semaphores are empty. *)
+Theorem C20_no_leak : forall (ci cb : nat) (es : list event) (s : state),
+  run (init ci cb) es = Some s -> (forall q, In q (procs s) -> quiet q = true) -> curI s = 0 /\ curB s = 0.
+Proof. exact no_leak. Qed.
+Print Assumptions C20_no_leak.
+
+(** Trace validation is sound: a logged trace accepted by [accepts] is an execution of the transition system
+    (so all of the above holds at its end, and — by [accepts_prefix] — at every logged instant). *)
+Theorem C20_accepts_sound : forall (ci cb : nat) (ts : list tev),
+  accepts ci cb ts = true ->
+  exists es s, run (init ci cb) es = Some s /\ trun (init ci cb) ts = Some s /\
+               holders SI s <= ci /\ holders SB s <= cb /\ panicked s = false.
+Proof. exact accepts_sound. Qed.
+Print Assumptions C20_accepts_sound.
+
+Theorem C20_accepts_prefix : forall (ci cb : nat) (a b : list tev),
+  accepts ci cb (a ++ b) = true -> accepts ci cb a = true.
+Proof. exact accepts_prefix. Qed.
+Print Assumptions C20_accepts_prefix.
+
+(** newMultiScheduler never creates an empty batch queue. *)
+Theorem C20_batch_capacity_positive : forall c d : N, (1 <= batch_cap c d)%N.
+Proof. exact batch_cap_pos. Qed.
+Print Assumptions C20_batch_capacity_positive.
+
+(** ---- non-vacuity: concrete executable histories *)
+Definition ex_hist : list event :=
+  [ENew; ENew; ENew;
+   EAcquire 0; EGrant 0;            (* 0 holds the only interactive slot *)
+   EAcquire 1; ECancel 1; EFail 1;  (* 1 is cancelled while waiting *)
+   EAcquire 2;                      (* 2 waits *)
+   EFire 0; EYield 0;               (* 0's slice is over: releases interactive, waits for batch *)
+   EGrant 2;                        (* 2 gets the interactive slot *)
+   EGrant 0;                        (* 0 gets the batch slot *)
+   EFire 2; EYield 2;               (* 2 wants batch too: blocks (batch is full) *)
+   ECancel 2; EFail 2].             (* failed yield: 2 runs on with sem = nil *)
+
+Example ex_hist_runs :
+  match run (init 1 1) ex_hist with
+  | Some s => (curI s, curB s, holders SI s, holders SB s, map p_pc (procs s), map p_errs (procs s))
+  | None => (9, 9, 9, 9, [], [])
+  end = (0, 1, 0, 1, [PRun; PAcqErr; PRun], [0; 1; 1]).
+Proof. vm_compute. reflexivity. Qed.
+
+(** hypotheses of C20_no_leak are satisfiable with a non-empty process list that went through every path *)
+Example ex_all_quiet :
+  match run (init 1 1) (ex_hist ++ [ERelease 2; ERelease 0]) with
+  | Some s => forallb quiet (procs s) && (length (procs s) =? 3) && (curI s =? 0) && (curB s =? 0)
+  | None => false
+  end = true.
+Proof. vm_compute. reflexivity. Qed.
+
+(** hypothesis of C20_fail_only_after_cancel is satisfiable *)
+Example ex_fail_runs :
+  run (init 1 1) ([ENew; ENew; EAcquire 0; EGrant 0; EAcquire 1; ECancel 1] ++ [EFail 1]) <> None.
+Proof. vm_compute. discriminate. Qed.
+
+(** the transition system is not permissive: over-admission, failure without cancellation, double release
+    and Yield after Release are not executable *)
+Example ex_no_overadmission : run (init 1 1) [ENew; ENew; EAcquire 0; EGrant 0; EAcquire 1; EGrant 1] = None.
+Proof. vm_compute. reflexivity. Qed.
+Example ex_no_spurious_failure : run (init 1 1) [ENew; ENew; EAcquire 0; EGrant 0; EAcquire 1; EFail 1] = None.
+Proof. vm_compute. reflexivity. Qed.
+Example ex_release_is_last : run (init 1 1) [ENew; EAcquire 0; EGrant 0; ERelease 0; EYield 0] = None.
+Proof. vm_compute. reflexivity. Qed.
+
+(** the trace acceptor accepts a real-looking log and rejects logs with a leaked or over-released slot *)
+Example ex_accepts :
+  accepts 1 1 [TNew; TNew; TAcqCall 0; TAcqOk 0; TAcqCall 1; TYieldStart 0; TAcqOk 1; TYieldOk 0; TObs 1 1;
+               TRelease 1; TRelease 0; TObs 0 0] = true.
+Proof. vm_compute. reflexivity. Qed.
+Example ex_rejects_leak :
+  accepts 1 1 [TNew; TAcqCall 0; TAcqOk 0; TRelease 0; TObs 1 0] = false.
+Proof. vm_compute. reflexivity. Qed.
+Example ex_rejects_overadmission :
+  accepts 1 1 [TNew; TNew; TAcqCall 0; TAcqOk 0; TAcqCall 1; TAcqOk 1] = false.
+Proof. vm_compute. reflexivity. Qed.
+Example ex_rejects_error_without_cancel :
+  accepts 1 1 [TNew; TNew; TAcqCall 0; TAcqOk 0; TAcqCall 1; TAcqErr 1] = false.
+Proof. vm_compute. reflexivity. Qed.
